@@ -107,7 +107,8 @@ def call_closure(repo, keys, depth=None):
 SHARE = {
     'C01': [('C06.2', 'inc/exc are table operations of the statement (masking / filtering returns a new rectangular table)'),
             ('C06.9', 'keyword criteria of inc/exc select rows by the value given, whatever its truth value'),
-            ('C06.4', 'a filter that leaves no row still returns a table with all its columns')],
+            ('C06.4', 'a filter that leaves no row still returns a table with all its columns'),
+            ('C18.3', 'derived columns, do() and callable filters are evaluated row by row with the cells their parameters name: positional AND keyword-only (getargs)')],
     'C02': [('C07.2', 'the merge walks the keys with cmp: it must be antisymmetric'), ('C07.3', 'int/float and NaN keys are equal under cmp'),
             ('C07.10', 'keys are compared after as_primitive'), ('C07.11', 'identical unorderable keys (None) are equal')],
     'C03': [('C19.3', 'nested list/dict arguments are aligned member by member by the loop lifting'), ('C12.4', 'the as-of reindex first drops, with _nona, exactly the rows that are missing in every column')],
@@ -117,11 +118,14 @@ SHARE = {
             ('C03.8', 'missing columns are NaN, not a number'), ('C03.9', 'nested operands are found'), ('C03.10', 'the call-time policies override the decorator defaults axis by axis')],
     # (C10 is NOT given the dt_bump obligations of C09: its statement defines the expected list BY iterating dt_bump, so a defect of dt_bump is not a defect of drange)
     'C11': [('C07.2', 'groups are runs of cmp-equal keys in cmp order'), ('C07.8', 'multi-column keys compare lexicographically: equal keys end up adjacent'), ('C07.3', 'numeric / NaN keys'), ('C07.9', 'string keys rank like native order'), ('C07.10', 'numpy scalars as keys'),
-            ('C07.11', 'None keys')],
+            ('C07.11', 'None keys'), ('C01.8', 'unlist / ungroup rebuild the table with dictable.concat: fresh column lists, operands untouched'),
+            ('C16.4', 'unpivot removes the x columns with ulist difference: a column NAME is removed as an element')],
+    'C09': [('C04.2', 'month / quarter / year tenors are _ymd(t.year, t.month + n, t.day): month overflow by ym, day overflow by calendar arithmetic')],
+    'C13': [('C04.7', 'numpy datetime64 bounds are converted by np2dt without losing resolution')],
     # (C12 is not given the df_slice obligations: its statement speaks of the 'nona' METHOD, which does not go through the edge slicing of _nona)
     'C16': [('C15.1', 'd + other is tree_update: neither operand modified'), ('C15.2', 'the merge walks tree_items: only exact dict / Dict / dictattr values are branches, anything else is a leaf kept as it is'), ('C15.3', 'override semantics of the merge'), ('C15.4', 'the merged mapping keeps the class of the left operand, also when that is empty'), ('C18.8', 'Dict.__call__ binds arguments by name'), ('C18.3', 'the names a callable takes from the mapping are getargs(f): positional AND keyword-only parameters')],
     'C20': [('C02.1', 'perdictable joins its inputs with dictable.join'), ('C02.4', 'cross product of equal keys'), ('C02.5', 'anti-join for the defaulted side'), ('C02.6', 'mode / key columns'),
-            ('C02.9', 'key columns of the joined table')],
+            ('C02.9', 'key columns of the joined table'), ('C02.8', 'two key columns are compared lexicographically by cmparr')],
 }
 
 
